@@ -90,6 +90,8 @@ func valText(v *AVal) string {
 		return fmt.Sprint(v.V)
 	case "raw", "type", "kw":
 		return fmt.Sprint(v.V)
+	case "tmplref":
+		return "\"p-${" + fmt.Sprint(v.V) + "}\""
 	}
 	return "true"
 }
